@@ -80,6 +80,8 @@ type item struct {
 	key string
 	hw  *HeldWrite
 	g   *Gate
+	fl  *Link
+	dir int
 }
 
 // Enabled lists parked items in canonical order.
@@ -88,6 +90,13 @@ func (s *Sched) enabled() []item {
 	for _, l := range s.links {
 		for _, h := range l.Held() {
 			out = append(out, item{key: fmt.Sprintf("w/%s/%d/%020d/%09d", l.Name, h.End.dir, h.Rpc.GetId(), h.seq), hw: h})
+		}
+	}
+	for _, l := range s.links {
+		for d := 0; d < 2; d++ {
+			if l.InFlight(d) > 0 {
+				out = append(out, item{key: fmt.Sprintf("d/%s/%d", l.Name, d), fl: l, dir: d})
+			}
 		}
 	}
 	s.mu.Lock()
@@ -119,7 +128,12 @@ func (s *Sched) Run(tape []byte, maxSteps int, done func() bool) {
 			k = int(tape[s.Steps]) % len(en)
 		}
 		it := en[k]
-		if it.hw != nil {
+		if it.fl != nil {
+			if r := it.fl.PeekFlight(it.dir); r != nil {
+				s.Trace = append(s.Trace, fmt.Sprintf("d:%s:%d:%d", it.fl.Name, it.dir, r.GetId()))
+			}
+			it.fl.ReleaseNext(it.dir)
+		} else if it.hw != nil {
 			s.Trace = append(s.Trace, fmt.Sprintf("w:%s:%d:%d", it.hw.End.link.Name, it.hw.End.dir, it.hw.Rpc.GetId()))
 			it.hw.Release()
 		} else {
